@@ -417,9 +417,10 @@ def builtin_tasks():
     return sorted(runner.M['builtin_policies'].BUILTIN_POLICIES.keys())
 
 
-def work_builtin(chunk, st):
+def builtin_variants(name):
+    """(policy dict, group-exchange policy, [(variant name, peer keyword arguments, host keys)]) of a peer configured exactly as the built-in policy lists."""
     BP = runner.M['builtin_policies'].BUILTIN_POLICIES
-    for name in chunk:
+    if True:
         p = BP[name]
         keys = list(p['host_keys'] or [])
         sizes = p.get('hostkey_sizes') or {}
@@ -456,6 +457,12 @@ def work_builtin(chunk, st):
                 elif k == 'sk-ssh-ed25519-cert-v01@openssh.com':
                     hk2[k] = wire.sk_ed25519_cert_tree(ca_tree)
             variants.append(('with-optional-host-keys', dict(kw, key=keys + opt), hk2))
+        return p, gex, variants
+
+
+def work_builtin(chunk, st):
+    for name in chunk:
+        p, gex, variants = builtin_variants(name)
         for vname, kw, hk in variants:
             if p['server_policy']:
                 srv = P.Server(host_keys=hk, gex=gex, **kw)
